@@ -251,7 +251,7 @@ func init() {
 		Gen: func(r *sim.Rng, tier string, idx int) *LZCase {
 			c := genLZWCase(r, tier, false, true)
 			if isVeryFarCase(tier, idx) {
-				pl, dc := veryFarPayload(r)
+				pl, dc := veryFarPayload(r, idx)
 				c.SizeMode = ""
 				c.W.LZ = &LZCfg{NoProps: true, DictCap: dc, BufSize: 4096, EOSMarker: true}
 				c.W.Payload, c.W.RDict = pl, 0
